@@ -70,15 +70,15 @@ def shapes(P, in_class, member='Value'):
 
 def build_module(shape_label, P, conc_label, second_shape=None):
     conc = CONCRETE[conc_label]
-    Q = 'UU' if P != 'UU' else 'WW'       # method-level parameter spelling
-    S = shapes(P, True)[shape_label]
+    Q = 'POIN' + P       # method-level parameter: its spelling *ends with* the class-level one (POINT for T)
+    S = shapes(P, True, 'Item' if P == 'Value' else 'Value')[shape_label]
     # the member name after a method-level parameter must not itself be the class-level parameter's
     # spelling (UU::Value with a parameter called Value is ambiguous in the dialect)
     qmember = 'Item' if P == 'Value' else 'Value'
     S2 = shapes(Q, True, qmember)[shape_label]
     other = T('ns::Other', 1, '&')
     if second_shape:
-        other = shapes(P, True)[second_shape]
+        other = shapes(P, True, 'Item' if P == 'Value' else 'Value')[second_shape]
     this_shape = 'This' in shape_label
     i = T('int')
     mconc = T('ns::Mm')
@@ -89,6 +89,8 @@ def build_module(shape_label, P, conc_label, second_shape=None):
         D.static(single(S), 'rets', [arg(S, 'a')]),
         D.prop(S, 'prop'),
         D.op(single(S), '()', [arg(S, 'a')]),
+        D.op(single(S), '-', []),
+        D.op(single(S), '+', [arg(S, 'o')]),
         # method-level parameter Q (instantiated with ns::Mm) next to the class-level one
         D.method(single(S2), 'tm', [arg(S2, 'a'), arg(S, 'b')], tpl=[D.tparam(Q, [mconc])]),
         D.static(single(S2), 'ts', [arg(S2, 'a'), arg(S, 'b')], tpl=[D.tparam(Q, [mconc])]),
@@ -98,13 +100,25 @@ def build_module(shape_label, P, conc_label, second_shape=None):
         members.append(D.method(pair(S, i), 'pr1', []))
         members.append(D.method(pair(T('ns::Keep', 0, '*'), S), 'pr2', []))
     base = T('ns::Base', t=[T(P)])
-    mod = [D.ns('gt', [D.cls('Foo', members, tpl=[D.tparam(P, [conc])], v=1, b=base)])]
+    # two instantiations: the second must not inherit anything from the first
+    second = T('ns::Second') if conc_label != 'ns' else T('double')
+    mod = [D.ns('gt', [D.cls('Foo', members, tpl=[D.tparam(P, [conc, second])], v=1, b=base)])]
     if not this_shape:
-        mod[0]['c'].append(D.func(single(S), 'fn', [arg(S, 'a', '4'), arg(other, 'o')], tpl=[D.tparam(P, [conc])]))
+        Sp = S
+        Ss = shapes('SS', False, 'Value')[shape_label]
+        third = T('ns::Third')
+        mod[0]['c'].append(D.cls('Bar', [
+            D.static(single(Sp), 'bs', [arg(Sp, 'a')], tpl=[D.tparam(P, [conc])]),
+            D.method(single(S2), 'bm', [arg(S2, 'a'), arg(Sp, 'b')], tpl=[D.tparam(Q, [mconc]), D.tparam(P, [third])]),
+            D.ctor('Bar', [arg(Ss, 'a')], tpl=[D.tparam('SS', [second])]),
+            D.method(single(Ss), 'bn', [arg(Sp, 'a'), arg(Ss, 'b')], tpl=[D.tparam('SS', [second]), D.tparam(P, [conc])]),
+        ]))
+    if not this_shape:
+        mod[0]['c'].append(D.func(single(S), 'fn', [arg(S, 'a', '4'), arg(other, 'o')], tpl=[D.tparam(P, [conc, second])]))
         # two-parameter header: both parameters occur
         Sq = shapes(Q, False, qmember)[shape_label]
         mod[0]['c'].append(D.func(single(Sq), 'fn2', [arg(S, 'a'), arg(Sq, 'b')],
-                                  tpl=[D.tparam(P, [conc]), D.tparam(Q, [mconc, T('double')])]))
+                                  tpl=[D.tparam(P, [conc, second]), D.tparam(Q, [mconc, T('double')])]))
     return mod
 
 
@@ -113,6 +127,8 @@ LOCUS = {  # readable context names for the deterministic member positions above
     '.method[1].a[1].t': 'class-param/method-arg', '.static[0].r[0]': 'class-param/static-return',
     '.static[0].a[0].t': 'class-param/static-arg', '.prop[0].t': 'class-param/property',
     '.op[0].r[0]': 'class-param/operator-return', '.op[0].a[0].t': 'class-param/operator-arg',
+    '.op[1].r[0]': 'class-param/unary-operator-return', '.op[2].r[0]': 'class-param/binary-operator-return',
+    '.op[2].a[0].t': 'class-param/binary-operator-arg',
     '.b': 'class-param/base-class',
     '.method[2].r[0]': 'method-param/method-return', '.method[2].a[0].t': 'method-param/method-arg',
     '.method[2].a[1].t': 'class-param/templated-method-arg',
@@ -132,7 +148,29 @@ def locus_of(diffstr):
     idx, rest = int(m.group(1)), m.group(2)
     if idx == 0:
         return LOCUS.get(rest, 'class' + rest)
-    return {1: 'function-param/fn', 2: 'function-2param/fn2', 3: 'function-2param/fn2b'}.get(idx, 'c%d' % idx) + rest
+    if idx == 1:
+        return '2nd-instantiation:' + LOCUS.get(rest, 'class' + rest)
+    return {2: 'plain-class-with-templated-members/Bar', 3: 'function-param/fn', 4: '2nd-instantiation:function-param/fn',
+            5: 'function-2param/fn2', 6: 'function-2param/fn2b', 7: '2nd-instantiation:function-2param/fn2',
+            8: '2nd-instantiation:function-2param/fn2b'}.get(idx, 'c%d' % idx) + rest
+
+
+def failure_kind(d, P):
+    """Coarse class of a type mismatch, so that a known finding does not hide a different failure of the same shape."""
+    import re
+    m = re.search(r"expected '([^']*)', observed '([^']*)'", d)
+    if not m:
+        return 'structure'
+    e, o = m.groups()
+    toks_o = set(re.findall(r'\w+', o))
+    toks_e = set(re.findall(r'\w+', e))
+    if e.replace('gt::Foo', 'Foo') == o:
+        return 'class-namespace-missing'
+    if any(x in toks_o and x not in toks_e for x in (P, 'POIN' + P, 'SS')) or ('This' in toks_o and 'This' not in toks_e):
+        return 'unsubstituted'
+    if sorted(re.findall(r'\w+', e)) == sorted(re.findall(r'\w+', o)):
+        return 'template-args-misplaced'
+    return 'wrong-type'
 
 
 def check_case(case):
@@ -147,8 +185,8 @@ def check_case(case):
     want = R.expected_instances(mod)
     diffs = R.compare_scope(want, got)
     for d in diffs:
-        viol.append({'sig': 'C02|%s|%s|%s|%s' % (case['shape'] + ('+' + case['shape2'] if case.get('shape2') else ''),
-                                                  case['conc'], case['P'], locus_of(d)),
+        viol.append({'sig': 'C02|%s|%s|%s|%s|%s' % (case['shape'] + ('+' + case['shape2'] if case.get('shape2') else ''),
+                                                     case['conc'], case['P'], locus_of(d), failure_kind(d, case['P'])),
                      'msg': '%s\n--- input ---\n%s' % (d, text)})
     return {'viol': viol, 'ntypes': _count_types(want)}
 
